@@ -113,7 +113,7 @@ CHECKS.update({
     'C10': dict(
         text='contact.get (with the mjx primitive collision functions it calls) is symbolically executed on plane + free-body scenes loaded by the real mjcf.loads. '
              'Full mode (ALL link positions and per-geom elasticities symbolic, orientations exact rational unit quaternions): link attribution, elasticity mean, '
-             'plane-sphere and plane-capsule closed forms. Slice mode (one body on a symbolic line through an exact rational configuration): sphere-sphere closed form '
+             'plane-sphere and plane-capsule closed forms; loader plumbing of per-geom elasticities (tuple and numeric-vector forms) into sys.elasticity. Slice mode (one body on a symbolic line through an exact rational configuration): sphere-sphere closed form '
              '(core), sphere-capsule witness-on-segment + optimality (extended), capsule-capsule informational.',
         note='Bounds: 4 (quick) / 12 (thorough) scenes, 1-2 lines per scene. Distance cases use optimality conditions rather than a second algorithm; sphere-capsule '
              'optimality holds up to 1e-9 m^2 because upstream mjx regularises the projection by 1e-6. Boxes / meshes / convex pairs outside.',
@@ -135,25 +135,30 @@ CHECKS.update({
         text='PARTIAL. (1) brax\'s own derivative rules (custom JVPs of safe_arccos / safe_arcsin) are compared, on the gradient jaxprs JAX produces, with JAX\'s built-in rules for '
              'all arguments in (-1,1), at function level and through kinematics of a 2-hinge stack. (2) Finiteness: the gradient jaxpr of a loss on one pipeline step is '
              'interpreted on symbolic lines through the singular inputs (rest, zero angular velocity, resting contact); every denominator met must be non-zero on the line; a '
-             'vanishing one is replayed with the real jax.grad and reported only if non-finite.',
-        note='Spring finiteness obligations are core; positional / generalized are extended. Derivatives produced purely by JAX rules are trusted. Steps 2-5 outside.',
+             'vanishing one is replayed with the real jax.grad and reported only if non-finite. Additionally, AT each singular input itself (line parameter pinned, ground query) all denominators '
+             'are non-zero (core for spring and positional).',
+        note='Whole-line obligations: spring core, positional / generalized extended. Derivatives produced purely by JAX rules are trusted: a finite-but-wrong gradient of a JAX-differentiated helper at a '
+             'singular input is outside the claim. Steps 2-5 outside.',
         technique='symbolic execution of jax.grad jaxprs; differential oracle between derivative rules; definedness obligations (QF_NRA) on symbolic lines', design='C03 and section 6.2'),
     'C04': dict(
         text='Inductive step: spring / positional step with EVERY State array field an independent symbolic input (masses = model constants), control symbolic, and (two-body '
              'scenes) arbitrary symbolic contact geometry: total linear momentum changes by exactly (sum m) g dt. Decided on the additive skeleton of the terms (large non-linear '
-             'chunks abstracted to fresh variables: unsat is sound). Rest clause (spring, positional) with Tier B configurations; the generalized rest clause is not decided.',
+             'chunks abstracted to fresh variables: unsat is sound); models carry non-zero global angular damping. Rest clause (spring, positional) with Tier B configurations strictly inside '
+             'ASYMMETRIC ranges chosen around them, incl. a left-handed 3-hinge stack (positional 3-dof: extended + witness search); the generalized rest clause is not decided.',
         note='A sat answer of the abstraction is confirmed by a witness search on the real code before it is reported. contact.get is stubbed in the two-body scenes only.',
         technique='symbolic execution of jaxprs; skeleton abstraction + QF_NRA; inductive step over arbitrary states', design='C04'),
     'C05': dict(
         text='Rigid-transform equivariance, sibling-order permutation and disconnected components are proved on the traced init+step of the spring pipeline (core) for all '
              'translations, root positions and all velocity states on a symbolic line through exact rational points (rotations exact rational, non-axis-aligned included); '
-             'positional obligations are extended; generalized only in the thorough tier.',
+             'positional: sibling order decided on the additive skeleton for the links below the torso (core), torso and rigid transform extended with a concrete witness search on the real code; '
+             'generalized only in the thorough tier.',
         note='Bounds: free root + h / hh (transform), torso with 2-0-1 children (sibling order), two 2-link models (components), one step.',
         technique='symbolic execution of jaxprs; polynomial identities (QF_NRA) between two symbolic runs', design='C05 and section 6.2'),
     'C06': dict(
         text='PARTIAL (single steps). Inert contacts / limits: two XML variants through the real loader, init+step compared output by output (spring: decided, terms identical; '
              'positional: extended + concrete differential side-check). Push-only and one-impact restitution: free sphere penetrating the ground by symbolic depth with symbolic normal '
-             'speed and elasticity: never pulled in; rebound speed e|v| within the pipeline margin (spring, positional).',
+             'speed and elasticity, at a symbolic horizontal position: never pulled in; under gravity a resting sphere 2-20 mm inside the ground moves outward; rebound speed e|v| within the pipeline '
+             'margin (spring, positional). Generalized, unit level: constraint.jac_limit returns zero limit rows for EVERY q strictly inside the ranges (q, qd fully symbolic).',
         note='Outside: 3 s resting / rebound histories, boxes and capsules for push-only, unit-norm of rotations (not decided by solver).',
         technique='symbolic execution of jaxprs; syntactic + skeleton comparison of two runs; QF_NRA on the sphere scene', design='C06 and section 6.2'),
     'C07': dict(
